@@ -18,6 +18,7 @@ def setup(ctx):
     gen.LAYOUT = 0.15
     gen.ALIAS = 0.12
     gen.PROV = 0.25  # a quarter of the generated operands come with a history of library operations (gen.provenance)
+    gen.STRUCT = 0.06  # exactly-zero tensors, unit tensors, all-ones and {-1,0,1} data
 
 
 def _pair(rng, kind=None, **kw):
